@@ -274,6 +274,30 @@ Section Cid.
     redirect_sorts (rd_of rds from_riid)
       (map (fun cb => let '(c0, riids) := revert fuel decls rds (fst cb) [] in (forward decls rds final_select c0 riids, snd cb)) k).
 
+  (* the column a column id is a COPY of: back through the redirects of its instance (the same column seen through a sub-query
+     boundary) and through Computes that are a bare reference to another column (`derive {x = id}`), to the first form.  Two sort
+     keys whose columns have the same first form order the rows alike: this is the `same` the check gives to
+     SelectPluck.drop_resorts (a re-emitted Sort may name an alias of the column the sort in effect names, because
+     alias_last_sorting re-targets the final ORDER BY to the alias) *)
+  Fixpoint canon_cid (fuel : nat) (decls : list (nat * decl)) (rds : list (nat * list (nat * nat))) (c : nat) : nat :=
+    match fuel with
+    | O => c
+    | S f =>
+        let c0 := fst (revert (S f) decls rds c []) in
+        match decl_of decls c0 with
+        | Some (DCompute (Some r)) => canon_cid f decls rds r
+        | _ => c0
+        end
+    end.
+  Definition canon_key (fuel : nat) (decls : list (nat * decl)) (rds : list (nat * list (nat * nat))) (k : skey) : skey :=
+    map (fun cb => (canon_cid fuel decls rds (fst cb), snd cb)) k.
+  Fixpoint skey_eqb (a b : skey) : bool :=
+    match a, b with
+    | [], [] => true
+    | (c, d) :: a', (c', d') :: b' => Nat.eqb c c' && Bool.eqb d d' && skey_eqb a' b'
+    | _, _ => false
+    end.
+
   (* ---- erasure to the kind-level model (keys = lists of directions) ---- *)
   Definition erase_item (i : citem) : item (list bool) :=
     match i with
